@@ -7,6 +7,7 @@ use crate::receiver::writer::{
     ObjectCacheControl, ObjectMetadata, ObjectWriter, ObjectWriterBuilderResult,
 };
 use crate::tools::error::{FluteError, Result};
+use base64::Engine;
 use std::collections::VecDeque;
 use std::rc::Rc;
 use std::time::Instant;
@@ -194,6 +195,13 @@ impl ObjectReceiver {
                 return Err(FluteError::new(
                     "Transfer length is null whereas Content-Length is not",
                 ));
+            }
+            if self.enable_md5_check {
+                // MD5 of an empty content
+                let md5 = base64::engine::general_purpose::STANDARD.encode(md5::compute([]).0);
+                if self.content_md5.as_ref().is_some_and(|m| *m != md5) {
+                    return Err(FluteError::new("MD5 does not match"));
+                }
             }
             self.complete(now);
             return Ok(());
